@@ -944,7 +944,7 @@ def rule_replace_cell(chk, fb):
     CELL = "structs::cell::Cell"
     r = chk.rule(
         "C07.e.obj",
-        "a cell placed on an occupied position replaces value and style: in the Cell method that overwrites self from an incoming Cell, the fields holding the value/formula and the style are assigned from the incoming cell on every path",
+        "a cell placed on an occupied position replaces value, style and hyperlink: in the Cell method that overwrites self from an incoming Cell, the fields holding the value/formula, the style and the hyperlink are assigned from the incoming cell on every path",
         floor=2,
     )
     cands = [d for d, b in fb.mir.items() if b.get("self_ty") == CELL and b["kind"] == "AssocFn" and b["argc"] == 2 and fb.ty(b["locals"][2]["t"]) == CELL and fb.ty(b["locals"][1]["t"]) == "&mut " + CELL]
@@ -955,7 +955,7 @@ def rule_replace_cell(chk, fb):
         b = fb.mir[d]
         cfg = CFG(b)
         chk.touch(d)
-        for f in ("cell_value", "style"):
+        for f in ("cell_value", "style", "hyperlink"):
             blocks = []
             for bi, bl in enumerate(b["blocks"]):
                 for st in bl["s"]:
